@@ -121,6 +121,20 @@ def getLookaheadCandidates (edgeNone : Bool) (g sg : Graph) : Cands :=
 def makeConstraints (cosets : List (Int × List Int)) : Constraints :=
   cosets.flatMap fun e => (e.2.filter fun t => e.1 != t).map fun t => (e.1, t)
 
+/-! ### specification of what `analyze_symmetry` + `_make_constraints` must deliver (a CHECKER, not a transcription) -/
+
+/-- does the automorphism `a` (total map on the pattern nodes) fix every pattern node with a key smaller than `i`? -/
+def fixesBelow (sg : Graph) (a : Map) (i : Int) : Bool := sg.keys.all fun j => !decide (j < i) || a.toFun j == j
+
+/-- `constraints` is exactly the set of pairs `(i, t)`, `t ≠ i`, with `t` in the orbit of `i` under the
+automorphisms of the pattern that fix all nodes smaller than `i` (the cosets of the stabiliser chain
+in key order: what the ISMAGS paper asks of the symmetry analysis).  Decided by enumerating `auts sg`. -/
+def constraintsValidB (sg : Graph) (C : Constraints) : Bool :=
+  let A := auts sg
+  (C.all fun lh => sg.keys.contains lh.1 && lh.1 != lh.2
+      && A.any fun a => fixesBelow sg a lh.1 && a.toFun lh.1 == lh.2)
+  && sg.keys.all fun i => A.all fun a => !fixesBelow sg a i || a.toFun i == i || C.contains (i, a.toFun i)
+
 /-! ### `_map_nodes` -/
 
 /-- the set added to `new_candidates[sgn2]` for the edge / non-edge between `sgn` (just mapped on
